@@ -1309,7 +1309,13 @@ func TestVerifC07(t *testing.T) {
 	}
 	var plansA []planA
 	if r.Quick() {
-		plansA = []planA{{full, 1}, {full, 2}, {small, 3}}
+		var mid []c07Kind // s2 absent or plain (no s2 tombstone variant)
+		for _, k := range full {
+			if k.S2 != 2 {
+				mid = append(mid, k)
+			}
+		}
+		plansA = []planA{{full, 1}, {full, 2}, {mid, 3}}
 	} else {
 		plansA = []planA{{full, 1}, {full, 2}, {full, 3}, {small, 4}}
 	}
@@ -1341,7 +1347,13 @@ func TestVerifC07(t *testing.T) {
 	if r.Quick() {
 		plansB = []planA{{small, 1}, {small, 2}}
 	} else {
-		plansB = []planA{{full, 1}, {full, 2}, {small, 3}}
+		var tiny []c07Kind // fixed s2, tombstones none / straddling
+		for _, k := range small {
+			if k.Tomb == 0 || k.Tomb == 2 {
+				tiny = append(tiny, k)
+			}
+		}
+		plansB = []planA{{full, 1}, {full, 2}, {tiny, 3}}
 	}
 	if v := os.Getenv("VERIF_C07_SKIP_B"); v != "" {
 		plansB = nil
